@@ -220,8 +220,32 @@ func histories(r *vlib.R, parses func(string) bool) []Case {
 			}
 		}
 	}
+	// whitespace dimension (family W of the key table): one tenant x query texts that differ only in whitespace PromQL
+	// treats as significant (end of a comment, inside string literals) or as layout (leading / trailing) x two steps.
+	// The split middleware re-renders the query of every request with start < end from its parsed expression before
+	// the results cache sees it (EvaluateAtModifierFunction: no comments, literals quoted); only a request for ONE
+	// instant (start == end) reaches the key generator with the client's text: these are Point requests.
+	var ws []Req
+	for _, q := range wsQueries(1, vlib.Pick(r, []string{""}, []string{"", "\n"}), parses) {
+		if strings.ContainsAny(q, "\v\u00a0") && !r.Thorough() {
+			continue
+		}
+		for _, st := range []int64{30000, 60000} {
+			ws = append(ws, Req{Kind: 0, Tenant: "a", Query: q, StepMs: st, Point: true})
+		}
+	}
+	for _, q := range []string{"{a=\"b  c\"}", "{a=`b  c`}", "{a=`b \nc`}", "a #c\n\n+a", "\na", "a\n", "a"} {
+		for _, st := range []int64{30000, 60000} {
+			ws = append(ws, Req{Kind: 0, Tenant: "a", Query: q, StepMs: st, Point: true})
+		}
+	}
+	// ... and a few of them over a range (re-rendered: different expressions get different texts)
+	for _, q := range []string{"a #c\n+a", "a #c +a", "{a=`b\nc`}", "{a=`b c`}", "{a=\"b\tc\"}"} {
+		ws = append(ws, Req{Kind: 0, Tenant: "a", Query: q, StepMs: 30000})
+	}
+	r.Set("history_whitespace_requests", len(ws))
 	var out []Case
-	for _, set := range [][]Req{rng, meta} {
+	for _, set := range [][]Req{ws, rng, meta} {
 		for i := range set {
 			for j := range set {
 				if i != j {
